@@ -12,6 +12,13 @@ def main(tier):
     chk = vf.Check('C05', tier, 'model_checking')
     vf.build('seq')
     progfam.model_check(chk)
+    # the storage discipline behind value semantics (Cow.tla): shared buffers are never written; the regression class
+    # "MakeUnique forgets one of the parallel halfedge arrays" is refuted
+    rc = vf.tlc_many([('Cow', 'Cow_all.cfg', {}), ('Cow', 'Cow_forgetPropVert.cfg', {})], parallel=2)
+    vf.tlc_ok(rc[0], 'Cow_all')
+    if rc[0].violation: raise vf.ToolError('Cow.tla: %s violated in the model' % rc[0].violation)
+    if not rc[1].violation: raise vf.ToolError('Cow.tla: the forgetPropVert variant is no longer refuted')
+    chk.coverage['states'] += rc[0].distinct; chk.coverage['transitions'] += rc[0].generated
     num = 120 if tier == 'quick' else 2500
     behs, r = progfam.generate('GenC05sim.cfg', simulate=num, timeout=3000)
     n1, nt1 = progfam.replay(chk, behs, 2, ['--rehash'], OWNED, tag='rehash')
